@@ -68,7 +68,7 @@ PROPS["C14"] = {
 }
 
 PROPS["C15"] = {
-    "units": ["multipart_payload", "multipart_field"],
+    "units": ["multipart_payload", "multipart_field", "multipart_boundary"],
     "kani": [],
     "technique": "Verus contracts on the extracted real multipart PayloadBuffer (conservation of bytes between stream, pending chunk and buffer; bounded fill; wake-up tokens) and its line/needle readers against a first-occurrence oracle",
     "level_text": "deductive proof, for all buffer states, boundaries, chunk sequences and limits, that InnerField::read_stream never emits a byte position that is or could still become the start of CRLF--boundary, ends the field exactly at a leading delimiter, consumes nothing otherwise, reports truncation at eof as Incomplete and terminates (decreases), that read_len emits exactly the declared count; and that PayloadBuffer::append_pending/poll_stream conserve bytes (buffer ++ pending is unchanged by moving data), never grow the buffer past its limit, set eof only at stream end, and never return without a wake-up source (stream registered, self-wake, or data the caller must consume); read_max/read_until/readline/unprocessed return exactly the specified prefix and report a truncated body as Incomplete",
@@ -196,7 +196,7 @@ PROPS["C08"] = {
 }
 
 PROPS["C19"] = {
-    "units": ["h1_chunked", "h1_transfer_encoding", "h1_codec", "h1_client_codec", "ws_frame", "multipart_payload", "multipart_field", "files_chunked", "h2_prepare_response", "http_header_map_iter", "web_payload_body", "web_form_body"],
+    "units": ["h1_chunked", "h1_transfer_encoding", "h1_codec", "h1_client_codec", "ws_frame", "multipart_payload", "multipart_field", "files_chunked", "h2_prepare_response", "http_header_map_iter", "web_payload_body", "web_form_body", "multipart_boundary", "h1_encode_headers", "web_json_body"],
     "only_suffix": ["::safety"],
     "kani": [
         {"crate": "actix-router", "harness": "kc_hex_pair_to_char_full_domain", "kind": "complete", "quick": True, "timeout": 900,
